@@ -33,7 +33,10 @@ type primaryGC struct {
 	reclaimed   int64
 }
 
-type UpdateIndexFunc func([]byte, types.Block) error
+// UpdateIndexFunc re-points the index entry of a key from its previous location
+// to a new one. It must fail, leaving the index unchanged, if the index does not
+// map the key to the previous location.
+type UpdateIndexFunc func(key []byte, prev, location types.Block) error
 
 func newGC(primary *MultihashPrimary, freeList *freelist.FreeList, interval, timeLimit time.Duration, updateIndex UpdateIndexFunc) *primaryGC {
 	gc := &primaryGC{
@@ -308,33 +311,36 @@ func (gc *primaryGC) reapRecords(fileNum uint32, lowUsePercent int64) (bool, err
 			if err != nil {
 				return false, fmt.Errorf("cannot get index key for record key: %w", err)
 			}
+			// Location of the record being moved.
+			offset := absolutePrimaryPos(types.Position(busyAt), fileNum, gc.primary.maxFileSize)
+			blk := types.Block{Size: types.Size(busySize), Offset: types.Position(offset)}
 			// Store the key and value in the primary.
 			fileOffset, err := gc.primary.Put(key, val)
 			if err != nil {
 				return false, fmt.Errorf("cannot put new primary record: %w", err)
 			}
-			// Update the index with the new primary location.
-			if err = gc.updateIndex(indexKey, fileOffset); err != nil {
+			// Update the index with the new primary location, but only if the
+			// index still refers to the record being moved.
+			if err = gc.updateIndex(indexKey, blk, fileOffset); err != nil {
 				log.Errorw("Cannot update index with new record location", "err", err)
-				// Failed to index the moved record, most likely because the
-				// key was not found in the index. The moved record is
-				// unreachable so it must be removed.
+				// The index does not refer to the moved record, because the
+				// key was updated or removed. The new copy is unreachable so
+				// it must be removed. The old location is put onto the
+				// freelist by whoever superseded it.
 				if err = gc.freeList.Put(fileOffset); err != nil {
 					log.Errorw("Cannot put failed index record location into freelist", "err", err)
 				}
 			} else {
 				log.Debugw("Moved record from end of low-use file", "from", fileName, "free", totalFree, "busy", totalBusy)
-			}
-			// Do not truncate file here, because moved record may not be
-			// written yet. Instead put moved record onto freelist and let next
-			// GC cycle process freelist and delete this record. This also
-			// keeps low-use files getting processed each GC cycle.
+				// Do not truncate file here, because moved record may not be
+				// written yet. Instead put moved record onto freelist and let
+				// next GC cycle process freelist and delete this record. This
+				// also keeps low-use files getting processed each GC cycle.
 
-			// Add outdated data in primary storage to freelist
-			offset := absolutePrimaryPos(types.Position(busyAt), fileNum, gc.primary.maxFileSize)
-			blk := types.Block{Size: types.Size(busySize), Offset: types.Position(offset)}
-			if err = gc.freeList.Put(blk); err != nil {
-				return false, fmt.Errorf("cannot put old record location into freelist: %w", err)
+				// Add outdated data in primary storage to freelist
+				if err = gc.freeList.Put(blk); err != nil {
+					return false, fmt.Errorf("cannot put old record location into freelist: %w", err)
+				}
 			}
 
 			busyAt = prevBusyAt
